@@ -24,6 +24,7 @@ NPROC = int(os.environ.get('SX_NPROC', '16'))
 OUT = os.environ.get('SX_OUT', ROOT)     # evidence/ and replays/ go here (mutant self-tests redirect it)
 
 _MODS = {}
+VACUITY_LABEL = 'vacuity twin: the end of the harness is reachable (assert False must be violated)'
 
 
 def get_mods(instrumented, yields=False, variant=None):
@@ -64,6 +65,8 @@ def run_native(hmod, shape, values, choices):
     crash = None
     try:
         hmod.HARNESSES[shape['h']](nctx, mods, shape)
+        if shape.get('vacuity') and nctx.reached:
+            nctx.fail(VACUITY_LABEL)
     except core.PathAbort:
         nctx.notes.add('abort')
     except core.Budget as e:
@@ -147,7 +150,11 @@ def work(args):
 
         crash = None
         try:
-            ex.explore(lambda e: fn(e, mods, shape), on_path=on_path)
+            def body(e):
+                fn(e, mods, shape)
+                if shape.get('vacuity') and e.reached and not any(f.label == VACUITY_LABEL for f in e.failures):
+                    e.fail(VACUITY_LABEL)
+            ex.explore(body, on_path=on_path)
         except core.HarnessError:
             raise
         except core.Unsupported as e:
@@ -253,6 +260,9 @@ def load_known():
 def main(argv):
     if len(argv) >= 2 and argv[0] == 'replay':
         return replay(argv[1])
+    if argv and argv[0] == 'selftest':
+        from . import selftest
+        return selftest.main(argv[1:])
     pid, tier = argv[0].upper(), (argv[1] if len(argv) > 1 else os.environ.get('VERIF_TIER', 'quick'))
     seed = int(os.environ.get('VERIF_SEED', '0') or 0)
     t0 = time.time()
